@@ -160,6 +160,21 @@ def gen_invocation(rng, idx):
         else:
             mac = 'tracing::span!(%stracing::Level::%s, %s%s)' % (''.join(p + ', ' for p in prefix), LEVELS[level], name_lit, (', ' + body) if body else '')
         stmt = 'let _span = %s;' % mac
+        # later `Span::record` calls by NAME: a field declared Empty gets its value (visited then, once, under the declared
+        # name); a name that is not declared — a different name, or a declared one in another letter case — is ignored
+        recs = []
+        for d in list(descr):
+            nm_hex, spec, _ = d.split()
+            nm = bytes.fromhex(nm_hex).decode()
+            if spec == 'e' and rng.random() < 0.7 and not nm.startswith('r#'):
+                val, vspec = rng.choice([('5u8', 'v:u8:5'), ('true', 'b:1'), ('"rec"', 's:%s' % hx('rec')), ('-7i64', 'v:i64:-7')])
+                recs.append('_span.record(%s, %s);' % (rust_str(nm), val)); descr.append('%s %s #0' % (nm_hex, vspec))
+        declared = [bytes.fromhex(d.split()[0]).decode() for d in descr]
+        if rng.random() < 0.5:
+            cand = [n.upper() for n in declared if n.upper() != n and n.upper() not in declared] + [n.capitalize() for n in declared if n.capitalize() != n and n.capitalize() not in declared] + ['zzz', 'message', '']
+            for u in rng.sample(cand, min(len(cand), rng.choice([1, 2]))):
+                recs.insert(rng.randrange(len(recs) + 1), '_span.record(%s, 9u8);' % rust_str(u))
+        if recs: stmt += '\n    ' + '\n    '.join(recs)
     fn = 'fn inv_%d() {\n    %s\n    %s\n}\n' % (idx, '\n    '.join(dict.fromkeys(pre)), stmt)
     line = 'I %s %d ;; %s' % (kind, level, ' , '.join(descr))
     return fn, tick, line
